@@ -10,8 +10,8 @@ import vlib, m2, m3
 from batch import Batch, J
 from props.c02 import HAND, defs_of, small_ints, typeless_struct
 
-PROOF_TARGETS = ["TypifyModel.Proofs.C03", "TypifyModel.Proofs.C03Contain"]
-PROOF_FILES = ["Proofs/C03.lean", "Proofs/Lemmas/RoundTripLemmas.lean", "Proofs/Lemmas/RoundTripStruct.lean",
+PROOF_TARGETS = ["TypifyModel.Proofs.C03Valid", "TypifyModel.Proofs.C03", "TypifyModel.Proofs.C03Contain"]
+PROOF_FILES = ["Proofs/C03Valid.lean", "Proofs/C03.lean", "Proofs/Lemmas/RoundTripLemmas.lean", "Proofs/Lemmas/RoundTripStruct.lean",
                "Proofs/Lemmas/RoundTripStruct2.lean", "Proofs/Lemmas/RoundTripMain.lean", "Proofs/Lemmas/RoundTripEnum.lean",
                "Proofs/Lemmas/SortedKv.lean", "Proofs/C03Contain.lean", "Proofs/Lemmas/ContainBasic.lean", "Proofs/Lemmas/ContainRefl.lean",
                "Proofs/Lemmas/ContainList.lean", "Proofs/Lemmas/ContainStruct.lean", "Proofs/Lemmas/ContainEnum.lean"]
@@ -150,6 +150,23 @@ def run(ctx):
     if st["driver_ok"] and rtok_req:
         ans, _ = m3.model_answers(live, rtok_req)
         for a in ans: rtok[a if a in rtok else "other"] += 1
+    # hypotheses of C03V.rt_valid_enforced (validity clause for the enforced constraints): rtok AND encB on the same definition
+    both = 0; enc_true = 0
+    if st["driver_ok"] and rtok_req:
+        try:
+            lines = []
+            for k, c in enumerate(live):
+                lines.append("ir c%d %s" % (k, json.dumps({"dump": c.dump, "settings": {}, "doc": c.doc}))); lines.append("allenc c%d" % k)
+            out = m2.run_bin(vlib.drv("ir"), lines)
+            encd = {}
+            for k, c in enumerate(live):
+                rr = json.loads(out[2 * k + 1]) if out[2 * k] == "ok" else {"defs": {}}
+                for key, v in rr["defs"].items():
+                    if v.get("enc") and v.get("rid") is not None: encd[(id(c), v["rid"])] = True
+            enc_true = len(encd)
+            both = sum(1 for rq, a in zip(rtok_req, ans) if a == "true" and encd.get((id(rq[0]), rq[1])))
+        except Exception as e:
+            ctx.notes.append("allenc unavailable: %r" % (e,))
     decl = {"true": 0, "false": 0, "other": 0}; inside = 0
     if st["driver_ok"] and decl_req:
         dans, _ = m3.model_answers(live, decl_req)
@@ -214,6 +231,7 @@ def run(ctx):
            "axioms": st.get("axioms", {}), "evaluations": len(reqs), "distinct_nontrivial": len(reqs),
            "rule": "per definition of every compiled case: schema-directed valid instances and boundary instances containing only declared members; distinct by (case, definition, JSON text); each is non-trivial (round-trips through at least the definition's own type)",
            "samples": [{"case": c.tag, "def": k, "instance": v} for (c, k, s, v) in meta[:4]],
+           "definitions_satisfying_validity_clause_hypotheses(rtok and encB, C03V.rt_valid_enforced)": both, "definitions_with_encB": enc_true,
            "definitions_satisfying_theorem_hypotheses(rtok)": rtok["true"], "definitions_outside_hypotheses": rtok["false"],
            "instances_declared(hypothesis of rt_contains)": decl, "instances_inside_both_theorems": inside,
            "traces_validated_against_impl": len(reqs) - r["skipped_model"] - r["skipped_real"],
